@@ -102,9 +102,14 @@ func Corpus() []*Schema {
 	// a second .proto file with its own Go package whose NAME differs from the last element of its import
 	// path (…/dep/v1;depv1); both files are handed to the generator in ONE request (imported file first)
 	cs = append(cs, &Schema{ID: "imports", Syntax: "proto3", GenDep: true,
-		Dep: &Schema{ID: "importsdep", Syntax: "proto3", Messages: []M{{Name: "D", Fields: []F{{"n", 1, "int32", "opt"}, {"s", 2, "string", "opt"}}}}, Enums: []E{{Name: "Shade", Values: []int32{0, 1, 5}}}},
+		// (the imported file uses its OWN message and enum types in every position too: a type declared in one file is
+		// referenced from both files of the request, from its own Go package first)
+		Dep: &Schema{ID: "importsdep", Syntax: "proto3", Enums: []E{{Name: "Shade", Values: []int32{0, 1, 5}}},
+			Messages: []M{{Name: "D", Fields: []F{{"n", 1, "int32", "opt"}, {"s", 2, "string", "opt"}}},
+				{Name: "Box", Fields: []F{{"d", 1, "msg:D", "opt"}, {"ds", 2, "msg:D", "rep"}, {"shade", 3, "enum:Shade", "opt"}, {"shades", 4, "enum:Shade", "packed"},
+					{"by", 5, "msg:D", "map:string"}, {"one", 6, "msg:D", "oneof:pick"}, {"other", 7, "enum:Shade", "oneof:pick"}, {"self", 8, "msg:Box", "opt"}}}}},
 		Messages: []M{{Name: "User", Fields: []F{{"id", 1, "int32", "opt"}, {"d", 2, "dep:D", "opt"}, {"ds", 3, "dep:D", "rep"}, {"shade", 4, "depenum:Shade", "opt"}, {"shades", 5, "depenum:Shade", "packed"},
-			{"by", 6, "dep:D", "map:string"}, {"one", 7, "dep:D", "oneof:pick"}, {"other", 8, "depenum:Shade", "oneof:pick"}}}}})
+			{"by", 6, "dep:D", "map:string"}, {"one", 7, "dep:D", "oneof:pick"}, {"other", 8, "depenum:Shade", "oneof:pick"}, {"box", 9, "dep:Box", "opt"}}}}})
 	// ONE Go package split over two .proto files (both generated in one request): types of the other file are used in
 	// every position, and both files carry the features for which the generator emits per-file / per-message helpers
 	// (packed enum lists, implicit float fields, required fields, oneofs, maps)
@@ -116,6 +121,20 @@ func Corpus() []*Schema {
 			{"shades", 5, "depenum:Shade", "packed"}, {"by", 6, "dep:Money", "map:string"}, {"one", 7, "dep:Money", "oneof:pick"}, {"other", 8, "depenum:Shade", "oneof:pick"},
 			{"colors", 9, "enum:Color", "packed"}, {"ratio", 10, "float", "opt"}}},
 			{Name: "Refund", Fields: []F{{"colors", 1, "enum:Color", "packed"}, {"of", 2, "dep:Tally", "opt"}, {"ratio", 3, "double", "opt"}}}}})
+	// ONE Go package split over two proto2 files that BOTH declare extensions (inside messages and at file level) of
+	// their own messages, generated in one request, the imported file first: whatever the generator collects per file
+	// (the extensions known for a message) must be collected again for the second file of the package; an extension of
+	// the importing file has a message type of the imported one
+	cs = append(cs, &Schema{ID: "samepkgext", Syntax: "proto2", GenDep: true, SamePkg: true,
+		Dep: &Schema{ID: "samepkgextdep", Syntax: "proto2",
+			Messages: []M{{Name: "PartBase", Fields: []F{{"id", 1, "int32", "opt"}}, Ranges: [][2]int32{{100, 200}}},
+				{Name: "PartH", Fields: []F{{"note", 1, "string", "opt"}}, Ext: []F{{"p_int32", 100, "int32", "ext:PartBase"}, {"p_string", 101, "string", "ext:PartBase"},
+					{"p_msg", 102, "msg:PartH", "ext:PartBase"}, {"p_sint64_rep", 103, "sint64", "ext:PartBase"}}}},
+			FileExt: []F{{"p_top", 110, "fixed64", "ext:PartBase"}}},
+		Messages: []M{{Name: "Base", Fields: []F{{"id", 1, "int32", "opt"}, {"name", 2, "string", "opt"}, {"part", 3, "dep:PartBase", "opt"}, {"parts", 4, "dep:PartBase", "rep"}}, Ranges: [][2]int32{{100, 200}}},
+			{Name: "H", Fields: []F{{"note", 1, "string", "opt"}}, Ext: []F{{"x_int32", 100, "int32", "ext:Base"}, {"x_string", 101, "string", "ext:Base"}, {"x_msg", 102, "msg:H", "ext:Base"},
+				{"x_part", 103, "dep:PartBase", "ext:Base"}, {"x_bytes_rep", 104, "bytes", "ext:Base"}, {"x_bool", 105, "bool", "ext:Base"}}}},
+		FileExt: []F{{"x_top", 110, "sint64", "ext:Base"}, {"x_top_part", 111, "dep:PartH", "ext:Base"}}})
 	// a foreign message type that only its runtime knows how to marshal (for gogo: plain protoc-gen-gogo output with
 	// XXX_Size / XXX_Marshal but no Marshal() / MarshalTo()), in the middle and at the end of the message, in a list,
 	// a map and a oneof
